@@ -9,8 +9,10 @@ import json, os, re, shutil, subprocess, sys, time, random, hashlib, collections
 
 VERIF = os.path.dirname(os.path.dirname(os.path.abspath(__file__)))
 SPEC = os.path.join(VERIF, "spec")
-WORK = os.path.join(VERIF, "work")
-HARNESS = os.path.join(VERIF, "harness")
+# the three overrides exist for running the checks against a mutated scratch copy of the
+# repository (seeded-defect experiments) without touching /repo, /verif/work or the evidence
+WORK = os.environ.get("VERIF_WORK", os.path.join(VERIF, "work"))
+HARNESS = os.environ.get("VERIF_HARNESS_DIR", os.path.join(VERIF, "harness"))
 BIN = os.path.join(HARNESS, "target", "debug", "wbverif")
 EVID = os.path.join(VERIF, "evidence")
 KNOWN_FILE = os.path.join(VERIF, "known_findings.json")
@@ -376,6 +378,8 @@ def parallel(fn, items, nproc=None):
 
 # --------------------------------------------------------------------------- evidence / result
 def write_evidence(prop, tier, seed, coverage, assumptions, wall, violations, level="model_checking"):
+    if os.environ.get("VERIF_NO_EVIDENCE"):
+        return
     os.makedirs(EVID, exist_ok=True)
     ev = {"property_id": prop, "tier": tier, "seed": seed, "level": level, "coverage": coverage,
           "assumptions": assumptions, "wall_s": round(wall, 1), "violations": violations}
@@ -383,7 +387,7 @@ def write_evidence(prop, tier, seed, coverage, assumptions, wall, violations, le
 
 
 def save_replay(prop, name, payload):
-    d = os.path.join(VERIF, "work", "replay")
+    d = os.path.join(WORK, "replay")
     os.makedirs(d, exist_ok=True)
     p = os.path.join(d, f"{prop}_{name}.json")
     json.dump(payload, open(p, "w"), indent=1)
